@@ -252,6 +252,10 @@ func (c *Ctx) failEdges(g guard) []start {
 	for _, s := range g.sites {
 		out = append(out, atEdge(c, s.br.Other(), "failure edge of "+g.name+" at "+c.at(s.site)))
 	}
+	// or-like merges: the merged value being false implies this disjunct false
+	for _, s := range g.weak {
+		out = append(out, atEdge(c, s.br.Other(), "failure edge of "+g.name+" (merged test) at "+c.at(s.site)))
+	}
 	return out
 }
 
